@@ -264,8 +264,9 @@ def _who_may_write(ctx, P):
         if q in roots:
             return True
         cs = callers.get(q, set()) - {q}
-        if not cs or q in seen:
-            return False
+        name = q.rsplit(".", 1)[-1].split(":")[-1]
+        if not cs or q in seen or not name.startswith("_") or name.startswith("__"):
+            return False  # no caller in the package, or a public name anybody may call
         return all(only_from_roots(c, seen + (q,)) for c in cs)
 
     nfun = 0
@@ -290,7 +291,9 @@ def _registry_model():
     from ..xmodel import dimsym
 
     xc, xg, yc, yg = dimsym("AX", "center"), dimsym("AX", "left"), dimsym("AY", "center"), dimsym("AY", "left")
-    pool = {"a_cc": (yc, xc), "b_cc": (xc, yc), "a_gc": (yc, xg), "b_gc": (xg, yc), "a_cg": (yg, xc), "a_gg": (yg, xg), "dx_c": (xc,), "dx_g": (xg,)}
+    # dx2_*: the same axis set as dx_* but given on the horizontal plane (2-D grid spacing): dimensions a strict superset
+    pool = {"a_cc": (yc, xc), "b_cc": (xc, yc), "a_gc": (yc, xg), "b_gc": (xg, yc), "a_cg": (yg, xc), "a_gg": (yg, xg), "dx_c": (xc,), "dx_g": (xg,),
+            "dx2_c": (yc, xc), "dx2_g": (yc, xg)}
 
     def var(name, eff=()):
         return Obj("DataArray", name, eff, {"dims": pool[name], "name": name, "__isinstance__": ("DataArray",)})
@@ -425,7 +428,13 @@ def _registry_table(ctx, P, fi):
     n = 0
     problems = []
     OMIT = object()
-    for (iname, init), batch, overwrite, as_kw in itertools.product(initials.items(), batches, (False, True, OMIT), (False,)):
+    # a second family under the single axis AX: 1-D and 2-D spacings side by side (a variable's dimensions may be a strict
+    # subset of another's in the same axis set - they are different slots)
+    initials_x = {"a 2-D spacing registered (one axis)": {kx: ["dx2_c"]}, "1-D and 2-D spacings registered (one axis)": {kx: ["dx_c", "dx2_c"]}}
+    batches_x = [("dx_c",), ("dx2_g", "dx_c"), ("dx_g", "dx2_c"), ("dx_c", "dx_g")]
+    work = [((AX, AY), kxy, i, b, o) for i, b, o in itertools.product(initials.items(), batches, (False, True, OMIT))]
+    work += [((AX,), kx, i, b, o) for i, b, o in itertools.product(initials_x.items(), batches_x, (False, True))]
+    for key_t, key_f, (iname, init), batch, overwrite in work:
         if overwrite is OMIT and iname not in ("one variable registered", "empty registry"):
             continue
         inst = f"{iname}, register {list(batch)}, overwrite={'not given' if overwrite is OMIT else overwrite}"
@@ -433,9 +442,10 @@ def _registry_table(ctx, P, fi):
         def make():
             ds = Obj("Dataset", "grid_ds", (), {"variables": list(pool), "data_vars": list(pool)})
             g = make_grid(("AX", "AY"), ds=ds)
-            g.attrs["_metrics"] = {k: [var(v) for v in vs] for k, vs in init.items()}
+            # what is registered already went through registration: its coordinates are dropped
+            g.attrs["_metrics"] = {k: [var(v, (("reset_coords", (("drop", True),)),)) for v in vs] for k, vs in init.items()}
             val = list(batch) if len(batch) > 1 else batch[0]
-            a = dict(self=g, key=(AX, AY), value=val, overwrite=overwrite)
+            a = dict(self=g, key=key_t, value=val, overwrite=overwrite)
             if overwrite is OMIT:
                 del a["overwrite"]  # the caller does not mention it: an occupied slot must then be refused
             return a
@@ -446,7 +456,7 @@ def _registry_table(ctx, P, fi):
         except Unmodelled as e:
             ctx.unknown("R16.3", inst, str(e))
             continue
-        want_reg, want_kind = reference(init, kxy, batch, False if overwrite is OMIT else overwrite)
+        want_reg, want_kind = reference(init, key_f, batch, False if overwrite is OMIT else overwrite)
         n += 1
         for o in outs:
             g = o.env.get("self")
